@@ -74,6 +74,7 @@ def gen_tool(g: G):
                            ("string[]", 4), ("int[]", 2), ("File[]", 1), ("record", 2), ("string[]-inner", 2)])
         optional = g.p(0.2)
         vf = None
+        no_null = False
         decl: dict
         if kind == "string":
             t = "string"
@@ -96,6 +97,7 @@ def gen_tool(g: G):
         elif kind == "enum":
             t = {"type": "enum", "symbols": ["alpha", "be-ta", "g"]}
             val = g.pick(["alpha", "be-ta", "g"])
+            no_null = True  # a null optional enum is refused by StreamFlow: known finding C30:optional-enum-null-rejected
         elif kind == "string[]":
             # values of array inputs bound through an outer inputBinding are never shell-quoted by StreamFlow
             # (known finding C30:composite-binding-not-shell-quoted): hostile items in ~1 array of 4 only
@@ -135,8 +137,10 @@ def gen_tool(g: G):
                     if decl["inputBinding"].get("prefix") in ("--with space", "--q'", "-é") and g.p(0.75):
                         decl["inputBinding"]["prefix"] = "--rec"
             elif kind == "string[]-inner":
-                if g.p(0.4):
-                    decl["inputBinding"] = {"position": g.i(0, 4)}
+                # always with an outer binding (the user-guide form); without one the items must be ordered by
+                # array index before their own position, which StreamFlow does not do (known finding
+                # C30:array-schema-binding-without-outer-binding-order, kept in the known-shapes sub-check)
+                decl["inputBinding"] = {"position": g.i(0, 4)}
             else:
                 decl["inputBinding"] = _binding(g, shell, array=kind.endswith("[]"), allow_value_from=vf)
                 if kind.endswith("[]") and decl["inputBinding"].get("prefix") in ("--with space", "--q'", "-é") and g.p(0.75):
@@ -153,7 +157,7 @@ def gen_tool(g: G):
                     if decl["inputBinding"].get("prefix") in ("--q'", "--with space"):
                         decl["inputBinding"]["prefix"] = "--p"
         inputs[name] = decl
-        if optional and g.p(0.5):
+        if optional and not no_null and g.p(0.5):
             if g.p(0.5):
                 job[name] = None
         else:
@@ -196,7 +200,8 @@ def gen_tool(g: G):
                 env_def[n] = g.pick(["plain", "two words", "v=1", "/some/path:/other", "", "ü", "a'b", "x;y", "p|q", "(z)",
                                      "<in>", "*", "~", "#c", "a  b ", "é日本"])
             elif form == 2:
-                env_def[n] = "$(inputs.%s)" % next(iter(inputs)) if _stringish(inputs[next(iter(inputs))]) else "lit"
+                # (the reference insists that an envValue *expression* evaluates to a string)
+                env_def[n] = "$(inputs.%s)" % next(iter(inputs)) if inputs[next(iter(inputs))].get("type") == "string" else "lit"
             else:
                 env_def[n] = g.pick(['a"b', "c'd", "$HOME", "`echo x`", "a\\b", "x$y", '"', "end\\"])
         doc["requirements"]["EnvVarRequirement"] = {"envDef": env_def}
